@@ -109,7 +109,11 @@ def step (s : DSt) (ws : List String) : DSt × String :=
     match items.mapM parseKV with
     | some m =>
       let r := lputBatch s.store fuel s.l (mapToBatch m)
-      ({ s with l := r.1, t := if s.dropped then t else putBatch t (mapToBatch m), staleRoot := none },
+      -- a value longer than MaxValueLength (PutBatch does not check, the decoder does): the expanded trie is
+      -- not `Bounded` any more, the refinement theorems do not apply — only the lazy model answers from here
+      let big := m.any fun e => match e.2 with | some v => decide (v.length > maxValueLength) | none => false
+      ({ s with l := r.1, t := if s.dropped then t else putBatch t (mapToBatch m), staleRoot := none,
+                dropped := s.dropped || big },
         if r.2 then "err" else s!"ok {m.length}")
     | none => (s, "bad-op")
   | ["flush"] => (s.flush, "ok")
